@@ -974,7 +974,10 @@ class Envelope:
             The given states will be returned in the given
             order (tensoring order), with the rest traced out
         """
-        from photon_weave.state.composite_envelope import CompositeEnvelope
+        from photon_weave.state.composite_envelope import (
+            CompositeEnvelope,
+            reduced_state,
+        )
         from photon_weave.state.fock import Fock
         from photon_weave.state.polarization import Polarization, PolarizationLabel
 
@@ -1011,33 +1014,16 @@ class Envelope:
         if self.expansion_level == ExpansionLevel.Vector:
             assert isinstance(self.state, jnp.ndarray)
             assert self.state.shape == (self.dimensions, 1)
-            reshape_shape.append(1)
+            if len(states) == 2:
+                # State was reordered to the requested order
+                return self.state.reshape((self.dimensions, 1))
             ps = self.state.reshape(reshape_shape)
 
-            # Construct Einsum string
-            c1 = itertools.count(start=0)
-            einsum_list_list: List[List[int]] = [[], []]
-            einsum_to = next(c1)
-
-            for s in state_order:
-                if s not in states:
-                    c = einsum_to
-                else:
-                    c = next(c1)
-                einsum_list_list[0].append(c)
-                if s in states:
-                    einsum_list_list[1].append(c)
-            c = next(c1)
-            einsum_list_list[0].append(c)
-            einsum_list_list[1].append(c)
-            einsum_list_str = [
-                "".join([chr(97 + x) for x in s]) for s in einsum_list_list
-            ]
-            einsum = f"{einsum_list_str[0]}->{einsum_list_str[1]}"
-            ps = jnp.einsum(einsum, ps)
-
-            dim = int(jnp.prod(jnp.array([s.dimensions for s in states])))
-            return ps.reshape(dim, 1)
+            # The reduced state of a vector state is the partial trace of
+            # |psi><psi|, which is a vector only if the state is not entangled
+            if state_order[0] is not states[0]:
+                ps = ps.T
+            return reduced_state(ps)
 
         if self.expansion_level == ExpansionLevel.Matrix:
             assert isinstance(self.state, jnp.ndarray)
